@@ -1,4 +1,5 @@
 mod c04;
+mod c20;
 mod coqfmt;
 mod cw1;
 mod cw20;
@@ -39,6 +40,7 @@ fn main() {
         "cw4" => run_cw4(mode, seed, count, &out, shard_size, &args),
         "cw3" => run_cw3(mode, seed, count, &out, shard_size, &args),
         "ics20" => run_ics20(mode, seed, count, &out, shard_size, &args),
+        "c20" => run_c20(mode, &out, shard_size, &args),
         _ => {
             eprintln!("unknown family {}", family);
             std::process::exit(2);
@@ -244,4 +246,32 @@ fn run_ics20(mode: &str, seed: u64, count: usize, out: &PathBuf, shard_size: usi
     });
     fs::write(out.join("stats.json"), serde_json::to_string_pretty(&stats).unwrap()).unwrap();
     println!("{} traces, {} steps, {} shards, {} classes", rans.len(), steps, names.len(), classes.len());
+}
+
+fn run_c20(mode: &str, out: &PathBuf, shard_size: usize, args: &[String]) {
+    let cases: Vec<c20::Case> = match mode {
+        "gen" => c20::generate(args.iter().any(|a| a == "--thorough")),
+        "replay" => {
+            let f = arg(args, "--file").expect("--file");
+            let text = fs::read_to_string(f).unwrap();
+            text.lines()
+                .filter(|l| l.trim_start().starts_with('{'))
+                .flat_map(|l| c20::replay(&serde_json::from_str::<c20::Case>(l).unwrap()))
+                .collect()
+        }
+        _ => panic!("mode"),
+    };
+    let items: Vec<String> = cases.iter().map(c20::to_coq).collect();
+    let names = shard::write_list_shards(out, "c20", c20::COQ_HEADER, "pcase", &["check_c20".to_string()], &items, shard_size);
+    let mut jf = fs::File::create(out.join("cases.jsonl")).unwrap();
+    let mut classes: BTreeMap<String, u64> = BTreeMap::new();
+    for c in &cases {
+        writeln!(jf, "{}", serde_json::to_string(c).unwrap()).unwrap();
+        *classes.entry(c20::class(c)).or_insert(0) += 1;
+    }
+    let stats = serde_json::json!({
+        "family": "c20", "mode": mode, "cases": cases.len(), "shards": names, "classes": classes,
+    });
+    fs::write(out.join("stats.json"), serde_json::to_string_pretty(&stats).unwrap()).unwrap();
+    println!("{} cases, {} shards, {} classes", cases.len(), names.len(), classes.len());
 }
